@@ -310,6 +310,9 @@ func (m *RuleManager) tryCommitPatch(patch *ruleConfigPatch) error {
 
 	ruleList, err := buildRuleList(patch)
 	if err != nil {
+		// patch.adjust() has re-pointed the live rules at the groups of the patch,
+		// point them back at the served groups before giving up.
+		m.ruleConfig.adjust()
 		return err
 	}
 
@@ -318,6 +321,7 @@ func (m *RuleManager) tryCommitPatch(patch *ruleConfigPatch) error {
 	// save updates
 	err = m.savePatch(patch.mut)
 	if err != nil {
+		m.ruleConfig.adjust()
 		return err
 	}
 
